@@ -324,7 +324,7 @@ distinct = distinct resolution patterns / (history length, key set, sequence, fl
     }
 
     // ---- estimates over histories ----------------------------------------------------------------------------
-    let n_hist = ctx.tier.pick(1_000, 20_000);
+    let n_hist = ctx.tier.pick(2_000, 20_000);
     for hi in 0..n_hist {
         if ctx.out_of_time() {
             break;
